@@ -11,9 +11,9 @@ EXPLANATION = ("LEVINSON, TOEPLITZ, HERMTOEP and CHOLESKY are executed on symbol
                "outside the unit circle (direct query, p<=2) and T x = z for the solvers.")
 BOUNDS = {
     "quick": "LEVINSON real order<=4, complex order<=2; Sylvester oracle order<=3 (real), <=2 (complex); root query "
-             "order<=2 real, 1 complex; TOEPLITZ/HERMTOEP M<=2 (3x3 systems) real and complex; CHOLESKY n<=2 complex, n<=3 real",
+             "order<=2 real, 1 complex; HERMTOEP M<=4 (5x5 systems) real and complex, TOEPLITZ M<=3 real, M<=2 complex; CHOLESKY n<=2 complex, n<=3 real",
     "thorough": "LEVINSON real order<=6, complex order<=3; Sylvester order<=4 real, 3 complex; root query order<=3 real, 2 complex; "
-                "TOEPLITZ/HERMTOEP M<=3; CHOLESKY n<=3",
+                "HERMTOEP M<=4, TOEPLITZ M<=4 (complex M>=3 attempted, may be inconclusive); CHOLESKY n<=3",
 }
 ASSUMPTIONS = ["floats modelled as exact reals", "sizes concrete and bounded",
                "CHOLESKY: library factorisations replaced by their contract (fresh L, positive diagonal, L L^H = A)"]
@@ -226,9 +226,14 @@ def cases(tier, seed):
                             timeout=60 if q else 300))
     for cplx in (False, True):
         tag = 'cx' if cplx else 're'
-        for M in range(1, (2 if q else 3) + 1):
-            out.append(Case("TOEPLITZ:%s:M=%d" % (tag, M), case_toeplitz, dict(M=M, cplx=cplx), timeout=60 if q else 300))
-            out.append(Case("HERMTOEP:%s:M=%d" % (tag, M), case_hermtoep, dict(M=M, cplx=cplx), timeout=60 if q else 300))
+        for M in range(1, (3 if q else 4) + 1):
+            if M <= (2 if cplx else 3) or not q:
+                out.append(Case("TOEPLITZ:%s:M=%d" % (tag, M), case_toeplitz, dict(M=M, cplx=cplx), timeout=60 if q else 300,
+                                wall=300 if q else 2400))
+            out.append(Case("HERMTOEP:%s:M=%d" % (tag, M), case_hermtoep, dict(M=M, cplx=cplx), timeout=60 if q else 300,
+                            wall=300 if q else 2400))
+        if q:
+            out.append(Case("HERMTOEP:%s:M=4" % tag, case_hermtoep, dict(M=4, cplx=cplx), timeout=60, wall=300))
         for method in ('numpy_solver', 'numpy', 'scipy'):
             for n in range(1, (3 if (not cplx or not q) else 2) + 1):
                 out.append(Case("CHOLESKY:%s:%s:n=%d" % (method, tag, n), case_cholesky, dict(n=n, cplx=cplx, method=method),
